@@ -358,7 +358,7 @@ def load_ndjson(path):
 
 # --------------------------------------------------------------------------- naming schemes
 # abstract elements are 1..N (and foreign ones above N); a naming gives each a concrete name
-def naming(kind, n_max=12):
+def naming(kind, n_max=20):
     """Return dict abstract int -> concrete name.
 
     ints     : k -> k (int)
@@ -401,7 +401,7 @@ class Absmap:
     and one dataset.  The library types a dataset `int` when every name is integer-like and `str`
     otherwise (property C16), so the concrete value of an element depends on the whole dataset."""
 
-    def __init__(self, kind, D=None, n_max=12):
+    def __init__(self, kind, D=None, n_max=20):
         self.kind = kind
         self.names = naming(kind, n_max)
         if D is None:
@@ -447,6 +447,57 @@ class Absmap:
 
     def rankings(self, rks):
         return [self.ranking(r) for r in rks]
+
+
+# --------------------------------------------------------------------------- public entry points
+def build_dataset(raw, how=0, name="verif"):
+    """Build a Dataset from raw rankings (lists of sets of names) through one of the public entry points:
+    0 Dataset.from_raw_list, 1 Dataset([Ranking(..)]), 2 Dataset([Ranking.from_string(str(Ranking(..)))]) when the
+    names survive the textual form (no delimiter characters), 3 write to a file + Dataset.from_file (same condition,
+    and only when some ranking is non-empty on the first line is not required since the fix of the empty-ranking line).
+    Falls back to 0 when the entry point does not apply to these names."""
+    from corankco.dataset import Dataset
+    from corankco.ranking import Ranking
+    names = [x for r in raw for b in r for x in b]
+    textual = all((isinstance(x, int) and x >= 0) or (isinstance(x, str) and x and not any(ch in x for ch in "[]{},: \t\n'\"")
+                                                     and x == x.strip()) for x in names)
+    how = how % 6
+    if how in (2, 3) and not textual:
+        how = 1
+    if how == 4:
+        # the unified version of the dataset, obtained through Dataset.unified_dataset(): the caller must re-read the
+        # rankings (they differ from `raw` when raw is incomplete)
+        ds = Dataset.from_raw_list([[set(b) for b in r] for r in raw], name=name).unified_dataset()
+        ds.name = name
+        return ds
+    if how == 5:
+        # projection on the whole universe through sub_problem_from_elements (empty rankings are dropped)
+        base = Dataset.from_raw_list([[set(b) for b in r] for r in raw], name=name)
+        ds = base.sub_problem_from_elements(set(base.universe))
+        ds.name = name
+        return ds
+    if how == 0:
+        return Dataset.from_raw_list([[set(b) for b in r] for r in raw], name=name)
+    if how == 1:
+        ds = Dataset([Ranking([set(b) for b in r]) for r in raw])
+        ds.name = name
+        return ds
+    if how == 2:
+        ds = Dataset([Ranking.from_string(str(Ranking([set(b) for b in r]))) for r in raw])
+        ds.name = name
+        return ds
+    d = workdir("files")
+    path = os.path.join(d, f"entry_{os.getpid()}_{abs(hash(str(raw))) % 10 ** 9}.txt")
+    try:
+        if os.path.exists(path):
+            os.unlink(path)
+        Dataset.from_raw_list([[set(b) for b in r] for r in raw]).write(path)
+        ds = Dataset.from_file(path)
+        ds.name = name
+        return ds
+    finally:
+        if os.path.exists(path):
+            os.unlink(path)
 
 
 # --------------------------------------------------------------------------- process pool
